@@ -3,34 +3,54 @@ from . import COMMON_TB, NOTE
 PROP = {
     "modules": ["Proofs.C09"],
     "streams": [{"name": "cmp"}],
-    "rule": "cmp: every unordered pair of a 168-value universe (nil, booleans, all ten integer widths at 0, +-1, min, max, "
-            "2^53+-1, floats incl. 2^53, 2^63, 2^64, strings, generic and typed arrays, maps of several key types, ordered "
-            "maps, drops, pointers, ranges, structs), each pair evaluated by the real parser and grammar actions for ==, !=, "
-            "<, >, <=, >=, contains in both orders, as variables and as array elements (dropWrapper path); truthiness of "
-            "every value through `and`, `or` and a rendered {% if %}; random value trees against independent trees and "
-            "against representation variants of themselves; random and/or/parenthesised conditions over three values. "
+    "rule": "cmp: every unordered pair of a 169-value universe (its size is recorded on every run in the evidence note "
+            "cmp:universe; nil, booleans, all ten integer widths at 0, +-1, min, max, "
+            "2^53+-1, finite floats incl. 2^53, 2^63, 2^64, strings, generic and typed arrays, maps of several key types, ordered "
+            "maps, drops, pointers, ranges, structs), bound to variables, each pair evaluated by the real parser and grammar "
+            "actions for ==, !=, <, >, <=, >=, contains in both orders; every value against itself and against two fixed "
+            "partners also as array elements (dropWrapper path: forms ee, ev, ve); truthiness of "
+            "every value, as variable and as array element, through `and`, `or` and a rendered {% if %}; random value trees "
+            "against independent trees and against representation variants of themselves (variable and element forms at "
+            "random); random and/or/parenthesised conditions over three values. No NaN, +-Inf or -0 operand is generated. "
             "A pair is non-trivial when ==, < or > holds; distinct by case line",
     "trusted_base": COMMON_TB,
     "assumptions": ["the model's Equal/Less/ValueOf/Contains/Test and grammar actions describe values/*.go and "
-                    "expressions.y after fixes C09-1..3: checked by the cmp stream on every run",
+                    "expressions.y after fixes C09-1..3 (0fd7bf4, 2a48d77, 17eb697) and map-contains-like-lookup (0f52a45: "
+                    "a map contains a key exactly when looking it up finds an entry): checked by the cmp stream on every run",
                     "int-vs-float comparison is specified as conversion to the join type float64 (README); it coincides "
-                    "with comparison by numeric value for |n| <= 2^53 (theorem equal_num / less_num)"],
+                    "with comparison by numeric value for |n| <= 2^53 (theorem equal_num / less_num)",
+                    "floats are finite and not -0 (exact rationals in the model): NaN, +-Inf and -0 operands are neither "
+                    "modelled nor generated, so reflexivity of == and numeric ordering are not claimed for them"],
 }
 
 TEXT = {
-    "text": "Theorems for all Go values of the model (structural induction over the nested value type): != is the negation "
-            "of ==, > is swapped <, <= is < or ==, >= is > or == (ne_not_eq, gt_swap, le_def, ge_def); == is reflexive on "
-            "well-formed values and symmetric (equal_refl, equal_symm); nil equals only nil (equal_nil); values of different "
-            "kinds are never equal and never ordered (equal_kind, less_unlike, less_nil); arrays are equal iff same length "
+    "text": "Theorems for all Go values of the model unless a hypothesis is named (structural induction over the nested "
+            "value type; an operand is what the operator sees of it: drops and top-level pointers resolved): != is the negation "
+            "of ==, > is swapped <, <= is < or ==, >= is > or == (ne_not_eq, gt_swap, le_def, ge_def); on well-formed operands "
+            "(WF: no pointer below the top level, no harness struct, no drop yielding a drop, no []byte / IterationKeyedMap, "
+            "every map with pairwise distinct scalar keys) == yields a Boolean, is reflexive and is symmetric (equal_total, "
+            "equal_refl, equal_symm); nil equals only nil and an ordering with nil is false (equal_nil, less_nil); between the "
+            "kinds nil / bool / number / string / array / map, values of different kinds are never equal and never ordered "
+            "(equal_kind, less_unlike; kind `other` - ordered maps, ranges, time, structs - is excluded by hypothesis); "
+            "slices and arrays are equal iff same length "
             "and element-wise equal (equal_array); integers of all ten widths compare exactly, an integer and a float "
             "after float64 conversion which is the numeric value for |n| <= 2^53 (equal_num, equal_num_join, less_num); "
-            "strings compare lexicographically on bytes (less_str); contains is substring / membership by == / key "
-            "(contains_str, contains_arr, contains_map); and/or treat exactly nil and false as false (truthy_iff); no "
-            "operator ever panics (rel_no_panic). The model is compared with the real parser+evaluator on all pairs of a "
-            "168-value universe and on random trees and conditions each run; the coherence laws and the kind table are "
+            "strings compare lexicographically on bytes (less_str); contains is substring for a string needle / membership by "
+            "== / the key lookup of m[k] with the needle converted to the key type (contains_str, contains_arr, contains_map, "
+            "contains_map_agrees_with_lookup); and/or treat exactly nil and false as false (truthy_iff, and_or_truthy); no "
+            "operator ever panics (rel_no_panic, ops_no_panic, cond_no_panic). The model is compared with the real "
+            "parser+evaluator on all pairs of a 169-value universe and on random trees and conditions each run; the coherence "
+            "laws (symmetry on every pair; reflexivity on every tree without structs, pointers below the top level and "
+            "drops yielding drops) and the kind table are "
             "evaluated on the real results.",
     "design_ref": "DESIGN.md 6 C09",
-    "note": NOTE + "Outside the model (skipped, counted): pointer identity, == between two harness structs, fmt.Sprint of a "
-                   "float/container needle of a string contains, contains on a struct.",
+    "note": NOTE + "Floats are finite and not -0 (exact rationals): NaN, +-Inf and -0 operands are neither modelled nor "
+                   "generated (Go's NaN == NaN is false, so reflexivity is not claimed there). Reflexivity, symmetry and "
+                   "totality of == are proved for well-formed operands only; the kind theorems only between the six documented "
+                   "kinds. Outside the model (answered `unmodelled`; skipped, counted): pointer identity, == between two "
+                   "harness structs, fmt.Sprint of a float/container needle of a string contains, contains on a struct, map "
+                   "contains with a numeric needle that does not convert into an integer key type without wrap-around, "
+                   "maps with non-scalar keys, []byte and IterationKeyedMap (the driver rewrites these two to []uint8 / "
+                   "map[string]any).",
     "technique": "Lean 4 proof (mutual structural induction on the value tree) + model/implementation correspondence",
 }
